@@ -415,14 +415,14 @@ def desugar(body, methods, ledger, fn):
 
 
 def desugar_let_chains(body, ledger, fn):
-    """`if let P = E && C { B }` (no else) -> `if let P = E { if C { B } }` (edition-2024 let chain,
-    by its definition: conditions are evaluated left to right)."""
+    """`if C1 && let P = E && C2 { B }` (no else) -> `if C1 { if let P = E { if C2 { B } } }`
+    (edition-2024 let chain, by its definition: the conjuncts are evaluated left to right and the
+    block runs iff all hold; without an else branch nesting is equivalent)."""
     for _ in range(50):
         m = mask(body)
         hit = None
-        for mm in re.finditer(r"\bif\s+let\b", m):
-            # find block open brace at depth 0 and a top-level && before it
-            k, depth, amp, ob = mm.end(), 0, None, None
+        for mm in re.finditer(r"\bif\b", m):
+            k, depth, amps, ob = mm.end(), 0, [], None
             while k < len(m):
                 ch = m[k]
                 if ch in "([":
@@ -432,24 +432,32 @@ def desugar_let_chains(body, ledger, fn):
                 elif ch == "{" and depth == 0:
                     ob = k
                     break
-                elif m.startswith("&&", k) and depth == 0 and amp is None:
-                    amp = k
+                elif ch == ";" and depth == 0:
+                    break
+                elif m.startswith("&&", k) and depth == 0:
+                    amps.append(k)
                 k += 1
-            if ob is not None and amp is not None:
-                hit = (mm.start(), amp, ob)
-                break
+            if ob is None or not amps:
+                continue
+            cuts = [mm.end()] + [a + 2 for a in amps]
+            ends = amps + [ob]
+            conj = [body[a:b].strip() for a, b in zip(cuts, ends)]
+            if not any(re.match(r"let\b", c) for c in conj):
+                continue
+            hit = (mm.start(), ob, conj)
+            break
         if hit is None:
             return body
-        st, amp, ob = hit
+        st, ob, conj = hit
         cb = match_brace(m, ob)
         after = m[cb + 1:].lstrip()
         if after.startswith("else"):
             raise ExtractError("%s: let chain with else branch is not supported" % fn)
-        head = body[st:amp].rstrip()
-        cond = body[amp + 2:ob].strip()
         inner = body[ob:cb + 1]
-        new = "%s { if %s %s }" % (head, cond, inner)
-        ledger.append("desugar let chain: `%s && %s` -> nested if" % (_norm(head)[:60], _norm(cond)[:40]))
+        new = inner
+        for c in reversed(conj):
+            new = "if %s %s" % (c, new if new is inner else "{ " + new + " }")
+        ledger.append("desugar let chain: `%s` -> nested if" % _norm(" && ".join(conj))[:100])
         body = body[:st] + new + body[cb + 1:]
     raise ExtractError("%s: let-chain desugaring did not terminate" % fn)
 
